@@ -146,7 +146,9 @@ func runC02(r *Run) {
 	// ---- C02.6 Reset call sites
 	resets := w.CallersOf(prod, "tsi.RoundLifecycle.Reset")
 	for _, c := range resets {
-		a := w.A(c.Fn)
+		// a helper split off from its only caller counts as that caller
+		owner := w.OwnerIn(c.Fn, func(n string) bool { return strings.HasSuffix(n, "sendInitialActionSet") })
+		a := w.AU(owner)
 		recv := a.sh.Of(CallArg(c.Instr, 0)).String()
 		h := a.sh.Of(CallArg(c.Instr, 2)).String()
 		rd := a.sh.Of(CallArg(c.Instr, 3)).String()
@@ -158,7 +160,7 @@ func runC02(r *Run) {
 			ok, why = true, "next height, round 0"
 		case h == recv+".H" && rd == "("+recv+".R + 1)":
 			ok, why = true, "same height, next round"
-		case strings.HasSuffix(FuncName(c.Fn), "sendInitialActionSet"):
+		case strings.HasSuffix(FuncName(owner), "sendInitialActionSet"):
 			// start-up: position from the store (+1 when a finalization exists)
 			ok = strings.Contains(h, "StateMachineHeightRound") || strings.Contains(h, "InitialHeight")
 			why = "start-up position from the state machine store / genesis"
